@@ -167,7 +167,7 @@ Qed.
 Lemma sh_snoc : forall (g : list node) n, map strip (g ++ [n]) = map strip g ++ [strip n].
 Proof. intros. rewrite map_app. reflexivity. Qed.
 
-Lemma nth_snoc : forall (g : list node) x, nth_error (g ++ [x]) (length g) = Some x.
+Lemma nth_snoc : forall (A : Type) (g : list A) x, nth_error (g ++ [x]) (length g) = Some x.
 Proof. intros. rewrite nth_error_app2; [|lia]. rewrite Nat.sub_diag. reflexivity. Qed.
 
 Lemma im_ok_fresh : forall s im, im_ok s im -> ~ In (next_index s) im.
@@ -362,7 +362,7 @@ Proof.
         -- destruct (add_name s n (Some z) false) as [s1|] eqn:AN; [|discriminate]. injection H as <- <-.
            apply add_name_spec in AN. destruct AN as [E T]. eapply Collapse; eauto.
         -- injection H as <- <-. eapply Collapse; eauto. repeat split.
-      * destruct (create o s kd [Some z] true nm true) as [s1 k1] eqn:C. injection H as <- <-. eapply Fallback; eauto.
+      * match type of H with Some ?t = _ => destruct t as [s1 k1] eqn:C end. injection H as <- <-. eapply Fallback; eauto.
     + destruct nm as [n|].
       * destruct c as [z|]; [|discriminate].
         destruct (get_node s (Z.abs z)) as [nd|]; [|discriminate].
